@@ -22,6 +22,8 @@ def plan(ctx):
         shapes = list(c13.SHAPES.get(name, [])) + list(h.EXTRA_SHAPES.get(name, [])) + list(MUT_SHAPES.get(name, []))
         # rarely used extra arguments: a codec-like / option-like string after the usual ones
         shapes += [sh + 'O' for sh in (c13.SHAPES.get(name, []) or ['S'])[:2]] + ['SO', 'SOO']
+        # ... or a dict / list of the program's own, where a builtin might leave something behind
+        shapes += [sh + k for sh in (c13.SHAPES.get(name, []) or ['S'])[:2] for k in 'yz'] + ['SSy', 'SSSy', 'SSSz', 'SSz']
         if not shapes:
             shapes = c13.GENERIC + ['A', 'T', 'LC']
         for sh in shapes:
